@@ -16,8 +16,12 @@ git stash -q
 echo "== demo without change"; PYTHONPATH=$WT/src /venv/bin/python SEED/demo.py > /tmp/seed/$NAME.without.txt 2>&1; RC_WITHOUT=$?; tail -1 /tmp/seed/$NAME.without.txt | cut -c1-200
 git stash pop -q
 echo "rc_with=$RC_WITH rc_without=$RC_WITHOUT"
-cd /repo && git status --short | grep -q . && { echo "/repo not clean"; exit 2; }
-git apply $OUT/patch.diff || { echo "patch does not apply to /repo"; exit 2; }
+# the checks run against a scratch worktree of /repo's HEAD with the change applied (VERIF_REPO), so /repo itself stays
+# untouched while other work reads it
+RUN=/tmp/seedrun.$$
+git -C /repo worktree add --detach -q $RUN HEAD || exit 2
+git -C $RUN apply $OUT/patch.diff || { echo "patch does not apply to /repo HEAD"; git -C /repo worktree remove --force $RUN; exit 2; }
+export VERIF_REPO=$RUN
 RES=""
 for P in $PROPS; do
   cd /verif
@@ -26,7 +30,8 @@ for P in $PROPS; do
   echo "== check $P: $LINE"; echo "   $DETAIL"
   RES="$RES{\"check\":\"$P\",\"line\":$(/venv/bin/python -c 'import json,sys; print(json.dumps(sys.argv[1]))' "$LINE"),\"detail\":$(/venv/bin/python -c 'import json,sys; print(json.dumps(sys.argv[1]))' "$DETAIL")},"
 done
-git -C /repo checkout -- . 
+unset VERIF_REPO
+git -C /repo worktree remove --force $RUN
 cd /verif
 /venv/bin/python - "$NAME" "$SUITE" "$RC_WITH" "$RC_WITHOUT" "[${RES%,}]" <<'PY'
 import json,sys
